@@ -94,8 +94,11 @@ class Grammar:
                         eps[b].add(t)
                     else:
                         tr[s].append((nm, t))
+                elif nm == "EOI":
+                    # EOI outside a predicate is a token-producing rule of pest (a trailing `EOI` pair)
+                    tr[s].append(("EOI", t))
                 else:
-                    # builtin: no token (EOI would, but only under & here - checked by the caller)
+                    # other builtins produce no token
                     eps[s].add(t)
             elif k in ("pospred", "negpred"):
                 eps[s].add(t)
